@@ -198,6 +198,10 @@ func (r *MMapReader) ReadNextAt(offset uint64) ([]byte, error) {
 			if err != nil {
 				return nil, fmt.Errorf("failed decompressing record at offset %d in mmap reader for '%s': %w", offset, r.path, err)
 			}
+			// the header (which is protected by its checksum) states how long the payload is once decompressed
+			if uint64(len(decompressedRecord)) != payloadSizeUncompressed {
+				return nil, uncompressedSizeMismatch(r.path, payloadSizeUncompressed, len(decompressedRecord))
+			}
 			// we do a defensive copy here not to leak the pooled slice
 			returnSlice = make([]byte, len(decompressedRecord))
 			copy(returnSlice, decompressedRecord)
